@@ -479,7 +479,7 @@ pub fn words64(r: &mut Rng, n: usize) -> Vec<String> {
 
 /// Returns (detection entries incl. condition, extra documents tailored to the shape).
 pub fn gen_special(r: &mut Rng) -> (Vec<(String, Yaml)>, Vec<Yaml>) {
-    let k = r.below(7);
+    let k = r.below(8);
     gen_special_kind(r, k)
 }
 
@@ -602,6 +602,15 @@ pub fn gen_special_kind(r: &mut Rng, kind: usize) -> (Vec<(String, Yaml)>, Vec<Y
                 }
                 docs.push(Yaml::Mapping(d));
             }
+            (det, docs)
+        }
+        7 => {
+            // lists whose needles overlap in the value (one automaton, several anchored members)
+            let n = 2 + r.below(3);
+            let ms: Vec<Yaml> = (0..n).map(|_| ys(*r.pick(&["a", "ab", "*ab", "b*", "*ba", "aa", "*aa", "iA", "i*aA", "*bcd", "abc", "*b", "ab*", "i*AB"]))).collect();
+            let key = *r.pick(&["s", "s", "all(s)", "of(s, 2)", "not(s)"]);
+            let det = vec![("A".to_string(), m1(key, Yaml::Sequence(ms))), ("condition".to_string(), ys(*r.pick(&["A", "not A"])))];
+            let docs = ["aab", "aba", "abab", "aaa", "bab", "ab", "abcd", "AB", "aA"].iter().map(|t| m1("s", ys(t))).collect();
             (det, docs)
         }
         6 => {
